@@ -10,6 +10,11 @@ MISSED_FIRST = {  # id -> what was strengthened (hand-maintained)
     "C20b": "the change sits in the socket-specific arm (`BearerWriteHalf::Unix`) that the simulated bearer replaces; batch `mux-kernel-unix-socketpair` added (both plexers on a kernel Unix socketpair with seeded SO_SNDBUF/SO_RCVBUF down to the kernel minimum, so segments larger than the free buffer space are taken in pieces)",
     "C29b": "peer-sharing replies never carried more than 50 distinct addresses; generators now produce up to 300 distinct addresses and conformant peers sometimes return the full amount asked for",
     "C26b": "the point alphabet had one hash per slot; now Origin, a block in slot 0 and two competing blocks per further slot",
+    "C09c": "a bit flip rarely lands on the one era-tag byte of a block; fault kind discriminant_rewrite added (small unsigned integers near the start of an item - constructor tags, era numbers, variant indices - rewritten to other values)",
+    "C23c": "the simulated keep-alive server always echoed the right cookie (treated as a don't-care); one response in four now carries a wrong cookie and must be refused without a state change",
+    "C24c": "the per-state sweep offered every message variant with fresh field values only; it now also offers the last three messages of the session again (same cookie / body / peers as the state may hold)",
+    "C25c": "reported by C21 as it stood (handshake-n2n/n2c:message-differs); C25 itself missed it because pallas' own client sends the proposal in one segment - a simulated initiator now delivers the Propose cut into several mux segments to the real Server::handshake in a third of the runs",
+    "C42c": "an error for a slot-only point beyond the last immutable block was accepted as equivalent to the empty suffix; the unchanged tree always answers Ok(empty) there when the database holds blocks, so the oracle now demands it (and far-away slots up to u64::MAX are generated)",
     "C12b": "histories ended at the refused update of the last period; they now continue (observations, signatures, restarts, further refused updates) on the exhausted key",
 }
 rows = []
